@@ -324,7 +324,12 @@ def pred_seq(name, a, b):
 @ax('core::slice::<impl [T]>::starts_with', 'core::str::<impl str>::starts_with',
     note='a.starts_with(b) <=> len(a) >= len(b) and a[..len(b)] == b; total')
 def a_starts_with(ev, st, info, args):
-    return [(st, pred_seq('starts_with', content(args[0]), pat_bytes(args[1])))]
+    a, b = content(args[0]), pat_bytes(args[1])
+    nb = T.mk_len(b)
+    # when a is known to be at least as long as a constant-length b this is equality with the prefix
+    if nb[0] == 'int' and a[0] != 'bytes' and solver.entails(st.pc, T.cmp('Ge', T.mk_len(a), nb)):
+        return [(st, T.eq(T.mk_slice(a, I(0), nb), b))]
+    return [(st, pred_seq('starts_with', a, b))]
 
 
 @ax('core::slice::<impl [T]>::ends_with', 'core::str::<impl str>::ends_with',
